@@ -57,6 +57,12 @@ def results_space(tier: str):
     for d in ("ansi", "mysql", "tsql"):
         for ch, c in explorer.explore(lambda ch, d=d: c05.gen_script(ch, d, 3), 1 if tier == "quick" else 2):
             add("gen:C05", c["text"], d)
+    # tables fed by statements that read no dataset (constants through a derived table, VALUES, DDL), then read in part
+    for first in ("INSERT INTO stage SELECT q.c, q.d FROM (SELECT 1 AS c, 2 AS d) q", "CREATE TABLE stage AS SELECT q.c, q.d FROM (SELECT 1 AS c, 2 AS d) q",
+                  "INSERT INTO stage (c, d) VALUES (1, 2)", "CREATE TABLE stage (c int, d int)", "INSERT INTO stage SELECT 1 AS c, 2 AS d"):
+        for rest in (["INSERT INTO fin SELECT c FROM stage"], ["INSERT INTO fin SELECT c FROM stage", "INSERT INTO fin2 SELECT d FROM stage"],
+                     ["INSERT INTO fin SELECT s.c FROM stage s JOIN other o ON 1 = 1"], ["INSERT INTO stage SELECT c, d FROM src", "INSERT INTO fin SELECT c FROM stage"]):
+            add("extra:constant-fed", ";\n".join([first] + rest))
     for r in corpus.corpus():
         for d in corpus.dialects_of(r):
             add("corpus:" + r["id"], r["sql"], d, r["md"])
